@@ -45,7 +45,7 @@ def shards(tier):
 
 
 def timeout(tier):
-    return 300 if tier == "quick" else 1500
+    return 900 if tier == "quick" else 5400
 
 
 MOJIBAKE = ["CafÃ©", "â‚¬5", "Ã¼ber", "naÃ¯ve", "Â©", "Ã±"]  # cp1252/latin-1 texts whose bytes happen to be well-formed UTF-8
